@@ -144,7 +144,7 @@ Fixpoint visit (t : tree) (g : gstack) : option tree * gstack :=
         end
       else
         let opens := mem tg opt_ctx_openers in
-        let '(ks, g1) := visit_kids visit kids (if opens then [] :: g else g) in
+        let '(ks, g1) := visit_kids visit kids (if opens then (if opt_ctx_fresh then [] else top g) :: g else g) in
         let g2 := if opens then tl g1 else g1 in
         let ks' := if N.eqb tg T_LIST then keep_some ks else none_to_node ks in
         if N.eqb tg T_Call then
